@@ -194,6 +194,22 @@ CLAIMED = {
               'of the index are checked as well.'),
         note='Values are unique per record so the row -> record projection is exact; selections select >= 1 frame.',
         technique='TLA+ spec + TLC model checking of populate histories; TLC trace validation of real populate histories'),
+    'C11': dict(
+        category='model_checking', design='3/C11',
+        text=('TLC model checks the converters\' pipeline (ToLas.tla: select rows, well section, columns, request set shared or copied) '
+              'with the design choices as constants: the combinations the three converters use refine ToLasAbs.tla for every slice/sample x '
+              'pass length in the bound and every two-pass run with overlapping channel names; the combinations found in the code before the '
+              'repairs (exclusive stop = Slice.last()+1, STOP from Slice.last(), STRT/STOP of the whole pass, request set mutated in place) are '
+              'refuted with counterexamples kept in the evidence.  Generated RP66V1 (1..2 logical files x 1..2 frame arrays), LIS (1..2 log passes, '
+              'direct/implied X, with/without CONS tables) and BIT (1..3 passes) files are converted by the real single_*_to_las functions under '
+              'selector x channel request x reduction x width x format; every output is split by an independent reader, projected onto the source '
+              '(rows by unique X, columns by name, printed STRT/STOP/STEP as scaled integers) and each run is validated by TLC against '
+              'ToLasTrace.tla (rows = Python slice exactly / a sample of at most N increasing from frame 0, columns = X + requested, well section = '
+              'first/last/mean spacing of the written rows, result tuple, file gate for foreign formats); values are compared with the recorded '
+              'content within the print precision and every output must be accepted by the real LASRead with the same shape.'),
+        note=('Known findings F3-C11, F11-C11, F21, F22, F23 are recognised by exact signature/emulation.  An empty selection may be reported as '
+              'failure or as a file without rows.  RP66V1 ORIGIN carries the attributes the converter reads.'),
+        technique='TLA+ spec + TLC model checking of the converter designs; TLC trace validation of real conversion runs'),
 }
 
 NOT_YET = 'check not built yet in this session; planned per DESIGN.md section 3'
